@@ -711,6 +711,10 @@ example : (match intFromString [32, 43, 49, 95, 48, 10] with | .ok 10 => true | 
 example : utf8Encode [0x41, 0xE9, 0x20AC, 0x1F600] = some [0x41, 0xC3, 0xA9, 0xE2, 0x82, 0xAC, 0xF0, 0x9F, 0x98, 0x80] := by decide
 example : utf8Decode [0x41, 0xC3, 0xA9, 0xE2, 0x82, 0xAC, 0xF0, 0x9F, 0x98, 0x80] = some [0x41, 0xE9, 0x20AC, 0x1F600] := by decide
 example : utf8Encode [0x61, 0xD800] = none := by decide
+-- a leading U+FEFF is a character of the value (not a byte order mark to strip); text that is not NFC stays as it is
+example : utf8Encode [0xFEFF, 0x61] = some [0xEF, 0xBB, 0xBF, 0x61] := by decide
+example : utf8Decode [0xEF, 0xBB, 0xBF, 0x61] = some [0xFEFF, 0x61] := by decide
+example : utf8Decode [0x65, 0xCC, 0x81, 0xE2, 0x84, 0xAB] = some [0x65, 0x301, 0x212B] := by decide
 example : utf8Decode [0xC0, 0x80] = none ∧ utf8Decode [0xED, 0xA0, 0x80] = none ∧ utf8Decode [0xF4, 0x90, 0x80, 0x80] = none := by decide
 /-- a stand-in for the platform parameters in the examples: floats as their text, `abspath` = identity -/
 def exX : Ext := ⟨⟨Bytes, id, some⟩, id⟩
